@@ -165,6 +165,21 @@ def subharnesses(tier):
                         'sym_valid_until': pv == 'lease'}
                   subs.append(('probe-%s-%s-%s-%s' % (topo, g1.ptag(res), pv,
                                                       hv), spec))
+    # two pending instances of the probe's shape fail ahead of it in every
+    # cycle (demands symbolic and independent per dimension, so they may be
+    # incomparable): what is remembered about their failures must not hide a
+    # server that fits the probe
+    for topo in ptopos[:1]:
+        for caps in ([[8, 8], [8, 8]], [[8, 2], [3, 9]]):
+            spec = {'mode': 'probe', 'topo': topo, 'D': 2, 'havoc': 'agg',
+                    'servers': [{'capacity': c} for c in caps],
+                    'allocs': [{'path': [], 'label': '_default'}],
+                    'apps': [{'place': None}, {'place': None},
+                             {'absent': True, 'place': None, 'priority': 1}],
+                    'pre_events': [], 'event': ['none'],
+                    'pv': 'behind_two_pending', 'sym_valid_until': False}
+            subs.append(('probe-%s-behind_two_pending-%s' % (
+                topo, '_'.join('%d%d' % tuple(c) for c in caps)), spec))
     return subs
 
 
@@ -292,6 +307,8 @@ META = {
 
 
 def weight(name, spec):
+    if 'behind_two_pending' in name:
+        return 9
     if name.startswith('probe') and ('plain' in name or 'after' in name or
                                      'lease' in name):
         return 5
